@@ -272,9 +272,22 @@ class RW:
         return seq
 
     # -- mutations (real + model) ----------------------------------------------
+    def seq(self, req):
+        """The required specifications as the caller may hand them over: any iterable, also one that can be walked
+        only once (generators, map objects, iterators)."""
+        r = self.rng.random()
+        if r < 0.8:
+            return req
+        self.ctx.count('required_given_as_a_one_shot_iterable' if r < 0.93 else 'required_given_as_a_list')
+        if r < 0.87:
+            return iter(tuple(req))
+        if r < 0.93:
+            return (x for x in tuple(req))
+        return list(req)
+
     def register(self, ri, req, prov, name, v):
         self.ctx.op('register', ri, nm(req), nm(prov), name, repr(v))
-        self.regs[ri].register(req, prov, name, v)
+        self.regs[ri].register(self.seq(req), prov, name, v)
         key = (self.norm(req), prov, name)
         if v is None:
             self.adapters[ri].pop(key, None)
@@ -286,7 +299,7 @@ class RW:
 
     def unregister(self, ri, req, prov, name, v=None):
         self.ctx.op('unregister', ri, nm(req), nm(prov), name, repr(v))
-        self.regs[ri].unregister(req, prov, name, v)
+        self.regs[ri].unregister(self.seq(req), prov, name, v)
         key = (self.norm(req), prov, name)
         cur = self.adapters[ri].get(key)
         if cur is not None and (v is None or cur is v):
@@ -294,12 +307,12 @@ class RW:
 
     def subscribe(self, ri, req, prov, v):
         self.ctx.op('subscribe', ri, nm(req), nm(prov), repr(v))
-        self.regs[ri].subscribe(req, prov, v)
+        self.regs[ri].subscribe(self.seq(req), prov, v)
         self.subs[ri].append((self.norm(req), prov, v))
 
     def unsubscribe(self, ri, req, prov, v=None):
         self.ctx.op('unsubscribe', ri, nm(req), nm(prov), repr(v))
-        self.regs[ri].unsubscribe(req, prov, v)
+        self.regs[ri].unsubscribe(self.seq(req), prov, v)
         k = self.norm(req)
 
         def same(e):
